@@ -336,6 +336,10 @@ func checkC05(p *Prog, r *Report) {
 		}
 		r.Check(bad == "" && len(t.Paths) == 4, "setSelector decision table", p.Pos(f.Body.Pos()), "4 rows", bad+": after a lost tie-break the agent keeps behaving in its old role (wrong control attribute, nominations ignored)")
 	}
+
+	// ---- R5.5 the role flag is used only inside the loop ----
+	r.Rule("R5.5", "The controlling/controlled flag is read and written only by code that runs inside the task loop or during construction: no exported entry point tests the role before queueing the task that depends on it.", 5)
+	checkRoleFlagConfined(p, r)
 }
 
 func boolStr(b bool) string {
